@@ -26,7 +26,13 @@ GUARDS = [
      "C02: a success response validates a pair only if it comes from the address the request was sent to"),
     ("prioless", "p21n", "NoDowngradeInv", {"MaxTicks": 2, "MaxLoss": 0, "MaxDup": 0, "MaxFlight": 2, "MaxInject": 1},
      "C03: plain USE-CANDIDATE never moves a controlled agent to a lower-priority pair"),
+    # "nomsticky" (C01: an unanswered nomination is retransmitted on the pair chosen first) has a hand-written schedule,
+    # scheds/c01_better_pair_validates_while_nominating.json: it needs a pair that has the lower priority on BOTH sides (p22), whose
+    # state space TLC neither exhausts nor samples into the counterexample within the time a regeneration may take
 ]
+
+
+SIMULATE = {"nomsticky": 40}
 
 
 def parse_msg(k):
@@ -93,17 +99,22 @@ def schedule_of(states):
     return sched
 
 
-def main():
+def main(only=None):
     out = {}
     with v.Work("nearmiss") as work:
         work.copy_specs("session")
         for guard, cfgname, inv, ov, doc in GUARDS:
+            if only and guard not in only:
+                continue
             cfg = g.load(cfgname, os.path.join(v.SPECS, "session", "configs.json"))
             cfg["mc"].update(ov)
             cfg["miss"] = [guard]
             mod = g.gen_mc(work.dir, "nm_" + guard, cfg, invariants=[inv])
             dump = work.path("cex_%s.json" % guard)
-            r = v.tlc(work.dir, mod, timeout=600, extra=["-dumpTrace", "json", dump])
+            if guard in SIMULATE:      # the breadth-first search does not reach the depth needed: random behaviours of the guard-less spec
+                r = v.tlc(work.dir, mod, timeout=600, simulate="num=20000000", depth=SIMULATE[guard], seed=7, extra=["-dumpTrace", "json", dump])
+            else:
+                r = v.tlc(work.dir, mod, timeout=600, extra=["-dumpTrace", "json", dump])
             if r.error or inv not in r.invariants_violated:
                 print("guard %s: no counterexample (%s, %d states)" % (guard, r.error, r.distinct))
                 continue
@@ -119,4 +130,4 @@ def main():
 
 
 if __name__ == "__main__":
-    main()
+    main(sys.argv[1:])
